@@ -216,6 +216,7 @@ fn step(cx: &mut Ctx, data: &mut Vec<u8>, op: &Op) {
                 show(&got)
             ));
             cx.probe("io.stream_exec");
+            cx.probe_n("sim.bytes_delivered_by_readers", tr.delivered as u64);
             if tr.reentered > 0 {
                 cx.probe("fault.fired.reentrant_reader");
             }
@@ -243,6 +244,7 @@ fn step(cx: &mut Ctx, data: &mut Vec<u8>, op: &Op) {
                 show(&fr.result)
             ));
             cx.probe("io.file_exec");
+            cx.probe_n("sim.bytes_delivered_by_readers", fr.trace.delivered as u64);
             if fr.panic.is_some() && (spec.open.is_err() || spec.meta.is_err() || matches!(spec.meta, Ok(x) if x > MAX)) {
                 cx.fail("C18.no_panic", "panic:hash_file", format!("hash_file panicked: {}", fr.panic.clone().unwrap_or_default()));
                 return;
